@@ -302,6 +302,17 @@ impl Check for C07 {
                     sc.extras.clear();
                     sc = untie(sc);
                 }
+                // a share of scenarios in which the echo is late and half received when the deadline passes (routing
+                // takes longer than that)
+                if aim % 16 == 2 {
+                    sc.ack_delay_ms = 0;
+                    sc.info_delay_ms = Some(1);
+                    sc.adapters.auth_ms = 0;
+                    sc.adapters.strategy_ms = sc.adapters.strategy_ms.max(40_000);
+                    sc.echo = vec![Echo::LateSplit(1 + ka_pick % 9)];
+                    sc.extras.clear();
+                    sc = untie(sc);
+                }
                 Case { sc, select_seed, delay_terminal_ms, delay_ka_ms, ka_pick, ka_prefix }
             })
             .boxed()
@@ -392,7 +403,7 @@ impl Check for C07 {
         (v, info)
     }
     fn rule(&self) -> String {
-        "latencies of authentication, discovery, filter, strategy from {0, 1, 15999, 16000, 16001, 31999..33000, 48001, random up to 80 s}; Login Acknowledged / Client Information delayed by 0..50 s (or Client Information never sent); per-keep-alive echo policy (prompt, delayed by 0..15995 ms, never, wrong id, duplicate, previous id), unsolicited echoes at random instants; whole-frame delivery; second run with the terminal packet's write pending for 1-50 ms, third run with one Keep Alive's write pending for 4-50 ms or accepted in two parts (same packets and outcome required). non-trivial = at least two Keep Alives and at least one adapter latency > 0; distinct = distinct case".into()
+        "latencies of authentication, discovery, filter, strategy from {0, 1, 15999, 16000, 16001, 31999..33000, 48001, random up to 80 s}; Login Acknowledged / Client Information delayed by 0..50 s (or Client Information never sent); per-keep-alive echo policy (prompt, delayed by 0..15995 ms, never, wrong id, duplicate, previous id, late and half received at the deadline), unsolicited echoes at random instants; whole-frame delivery; second run with the terminal packet's write pending for 1-50 ms, third run with one Keep Alive's write pending for 4-50 ms or accepted in two parts (same packets and outcome required). non-trivial = at least two Keep Alives and at least one adapter latency > 0; distinct = distinct case".into()
     }
     fn assumptions(&self) -> Vec<String> {
         vec![
